@@ -8,7 +8,7 @@
    instance of C18 for the documented precedences. *)
 From Coq Require Import List NArith ZArith String Arith.
 Import ListNotations.
-From PP Require Import Base Syntax Spec SpecSyn SpecNoErr SpecWf SpecTerm SpecCert Grammars Tables Pratt PrattProof.
+From PP Require Import Base Syntax Spec SpecSyn SpecNoErr SpecWf SpecTerm SpecCert Grammars Tables Pratt PrattProof JsonComplete.
 
 Theorem C17_json_refs_defined :
   all_grammar (ref_defined json_grammar) json_grammar = true /\
@@ -78,8 +78,19 @@ Example calc_neg_pow :
   Pratt.parse calc_tb [KPre 0; KPrim 2; KInf 4; KPrim 2] = Some (TIn (TPre 0 (TPrim 2)) 4 (TPrim 2), []).
 Proof. vm_compute. reflexivity. Qed.
 
+(* COMPLETENESS of examples/json/json.pest (regenerated into Grammars.json_grammar on every run):
+   every RFC 8259 text whose top level is an array or object — any value nesting, every number
+   form, every escape, insignificant whitespace anywhere RFC 8259 allows it (JsonComplete.renders_doc)
+   — is accepted, the whole input is consumed, and the tree mirrors the document: same nesting and
+   member order, number and string tokens are exactly the source slices, EOI last
+   (JsonComplete.mirrors). Proof: JsonComplete.v, by induction over documents; no axioms. *)
+Theorem C17_json_complete : forall v text, wf_jv v = true -> top_level v -> renders_doc v text ->
+  exists f s tree, Spec.parse json_grammar f json_grammar_start text 0 = Ok s tree /\ s_rest s = [] /\ mirrors text v tree.
+Proof. exact json_complete. Qed.
+
 Print Assumptions C17_json_refs_defined.
 Print Assumptions C17_json_never_stuck.
 Print Assumptions C17_json_tree_wellformed.
 Print Assumptions C17_json_terminates.
 Print Assumptions C17_calc_tree_canonical.
+Print Assumptions C17_json_complete.
